@@ -17,7 +17,7 @@ Lemma TInvR_core_eq r s s' : core_eq s s' -> TInvR r s -> TInvR r s'.
 Proof.
   intros C H. destruct r; simpl in *; try (eapply TInv_core_eq; eassumption); try exact H.
   destruct H as [H N]. split; [|exact N]. eapply TInv_core_eq; [|exact H].
-  destruct C as (A1&A2&A3&A4&A5&A6&A7&A8&A9&A10). repeat split; simpl; assumption.
+  destruct C as (A1&A2&A3&A4&A5&A6&A7&A8&A9&A10&A11). repeat split; simpl; assumption.
 Qed.
 
 (* leaving Text / InTableText for the saved mode *)
@@ -61,7 +61,7 @@ Proof.
   destruct (TInv_stack_nonempty _ I L) as (r & rest & E & N).
   apply TInv_set_stack; try assumption.
   - rewrite E. unfold vpush. simpl. eauto.
-  - destruct I2 as [A _]. unfold handles_of in A. inversion A as [|x l _ A1]; subst.
+  - destruct I2 as [A _]. unfold state_handles in A. pose proof A as A1.
     apply Forall_app in A1. destruct A1 as [A1 _]. unfold vpush. apply Forall_app. split; [exact A1 | constructor; [exact K | constructor]].
   - unfold tm_ok, tcount in I7. unfold tcount_of, vpush. rewrite filter_length_app. cbn [filter].
     assert (Ht : is_template s h = false).
@@ -78,8 +78,8 @@ Lemma TInv_set_head_elem s h :
   TInv s -> known s h -> ename_of s h = (ns_html, nm "head") -> TInv (set_head_elem (Some h) s).
 Proof.
   intros [I1 I2 I3 I4 I5 I6 I7 I8 I9 I10 I11] K N. constructor; try assumption.
-  - destruct I2 as [A B]. split; [|exact B]. unfold handles_of in *. cbn [open_elems active_formatting head_elem form_elem context_elem set_head_elem].
-    inversion A as [|x l A0 A1]; subst. constructor; [exact A0|].
+  - destruct I2 as [A B]. split; [|exact B]. unfold state_handles in *. cbn [open_elems active_formatting head_elem form_elem context_elem set_head_elem].
+    pose proof A as A1.
     apply Forall_app in A1. destruct A1 as [A1 A2]. apply Forall_app in A2. destruct A2 as [A2 A3].
     apply Forall_app in A3. destruct A3 as [_ A4].
     apply Forall_app; split; [exact A1|]. apply Forall_app; split; [exact A2|].
@@ -297,7 +297,7 @@ Proof.
   destruct head_noscript_facts as (F0 & F3 & N3 & F4 & N4 & F5 & N5).
   assert (AE : wp (in_head_noscript_anything_else t) (step_post t) s1).
   { unfold in_head_noscript_anything_else. rewrite wp_bind, wp_parse_error, wp_bind.
-    eapply (wp_pop s1); [apply keeps_set_out; exact K1 | exact L1 | exact Len1 |].
+    eapply (wp_pop s1); [(apply keeps_set_out; [|reflexivity]); exact K1 | exact L1 | exact Len1 |].
     intros e s2 K2 _ _ _. rewrite wp_ret. pose proof K2 as [I2 S2].
     apply (reprocess_post s1); [exact K2 | exact L1 | exact NS1 | reflexivity | reflexivity |].
     intros _. rewrite (st_head _ _ S2). exact Hd1. }
@@ -366,7 +366,7 @@ Proof.
   - (* 6 head-level start tags *)
     rewrite wp_bind, wp_parse_error, wp_bind, wp_get, wp_bind, wp_unwrap.
     set (s2 := set_out _ s1).
-    assert (I2 : TInv s2) by (eapply TInv_core_eq; [apply core_eq_set_out | exact I1]).
+    assert (I2 : TInv s2) by (eapply TInv_core_eq; [(apply core_eq_set_out; reflexivity) | exact I1]).
     destruct (head_elem s2) as [hd|] eqn:Eh; [|exfalso; apply Hd1; exact Eh].
     exists hd. split; [reflexivity|].
     rewrite wp_bind. unfold push. rewrite wp_modify.
@@ -441,7 +441,7 @@ Proof.
   - apply arm_append_text; assumption.
   - (* Eof *)
     rewrite wp_bind, wp_parse_error, wp_bind. set (s2 := set_out _ s1).
-    assert (K2 : keeps s1 s2) by (apply keeps_set_out; exact K1).
+    assert (K2 : keeps s1 s2) by ((apply keeps_set_out; [|reflexivity]); exact K1).
     assert (Rest : forall s3, keeps s1 s3 -> open_elems s3 = open_elems s1 ->
        wp (_e <- pop ;; s <- get ;; om <- unwrap (orig_mode s) 39 ;; modify (set_orig_mode None) ;; ret (Reprocess om t))
           (step_post t) s3).
@@ -452,9 +452,11 @@ Proof.
       exists om. split; [exact Eo|]. rewrite wp_bind, wp_modify, wp_ret.
       split; [split; [exact Io | apply nonsaving_not_text; exact So] | apply res_ok_reprocess]. }
     apply wp_current_node_named; [exact (keeps_TInv _ _ K2) | exact L1 |]. intros h V. rewrite wp_bind.
-    destruct (html_elem_named_b s2 h (nm "script")).
+    destruct (html_elem_named_b s2 h (nm "script")) eqn:Ns.
     + rewrite wp_bind, wp_get, wp_bind, wp_unwrap. exists h. split; [exact V|]. rewrite wp_emit.
-      apply Rest; [apply keeps_set_out; exact K2 | reflexivity].
+      assert (Kh : known s2 h) by (eapply TInv_stack_known; [exact (keeps_TInv _ _ K2) | apply vlast_In; exact V]).
+      apply Rest; [apply keeps_emit; [exact K2 | reflexivity | reflexivity |] | reflexivity].
+      cbn [op_okb]. rewrite (v_named_ename s2 h _ Kh). unfold html_elem_named_b in Ns. apply ename_eqb_eq in Ns. rewrite Ns. reflexivity.
     + rewrite wp_ret. apply Rest; [exact K2 | reflexivity].
   - (* end tag *)
     rewrite wp_bind. eapply (wp_pop s1 s1); [exact K1 | exact L1 | exact Len1 |].
@@ -522,7 +524,7 @@ Proof.
     + rewrite wp_bind. apply wp_probe. rewrite wp_bind, wp_parse_error.
       eapply wp_mono.
       { apply (wp_mapM_ _ pending (fun s' => keeps s2 s')).
-        - do 2 apply keeps_set_out. apply keeps_refl. exact I2.
+        - do 2 (apply keeps_set_out; [|reflexivity]). apply keeps_refl. exact I2.
         - intros x s0 _ K0. rewrite wp_bind.
           eapply wp_mono; [apply (foster_chars_keeps s0); [exact (keeps_TInv _ _ K0) | eapply keeps_late; eassumption | reflexivity]|].
           intros r s' [K' ->]. rewrite wp_ret. eapply keeps_trans; eassumption. }
@@ -530,7 +532,7 @@ Proof.
     + rewrite wp_bind. apply wp_probe.
       eapply wp_mono.
       { apply (wp_mapM_ _ pending (fun s' => keeps s2 s')).
-        - apply keeps_set_out. apply keeps_refl. exact I2.
+        - (apply keeps_set_out; [|reflexivity]). apply keeps_refl. exact I2.
         - intros x s0 _ K0. rewrite wp_bind.
           eapply (wp_append_text s2); [exact K0 | eapply keeps_late; eassumption |]. intros s' K' _. rewrite wp_ret. exact K'. }
       intros _u s3 K3. apply Tail. exact K3.
@@ -650,7 +652,7 @@ Proof.
     + rewrite wp_bind, wp_modify, wp_ret.
       split; [split; [apply TInv_enter_table_text; assumption | discriminate] | apply res_ok_reprocess].
   - rewrite wp_bind, wp_parse_error.
-    eapply wp_mono; [apply foster_parent_in_body_ok; [eapply TInv_core_eq; [apply core_eq_set_out | exact I] | exact L | left; exact NS | exact Sc]|].
+    eapply wp_mono; [apply foster_parent_in_body_ok; [eapply TInv_core_eq; [(apply core_eq_set_out; reflexivity) | exact I] | exact L | left; exact NS | exact Sc]|].
     intros r s' [P _]. exact P.
 Qed.
 
@@ -752,7 +754,7 @@ Proof.
     apply (table_phantom_reprocess s1 (nm "tbody") InTableBody t); try assumption; try reflexivity; discriminate.
   - (* 7 <table> *)
     rewrite wp_bind, wp_parse_error, wp_bind, wp_get. set (s2 := set_out _ s1).
-    assert (K2 : keeps s1 s2) by (apply keeps_set_out; exact K1).
+    assert (K2 : keeps s1 s2) by ((apply keeps_set_out; [|reflexivity]); exact K1).
     destruct (in_scope_named s2 table_scope (nm "table")) eqn:Sc2.
     + rewrite wp_assoc. rewrite wp_bind.
       eapply (wp_close_table s1 s2); [exact K2 | exact L1 | exact Sc2 |].
@@ -764,13 +766,13 @@ Proof.
     + rewrite wp_assoc. rewrite wp_bind.
       eapply (wp_close_table s1 s1); [exact K1 | exact L1 | exact Sc2 |].
       intros m s' K' Em Sm Hd. apply (set_mode_done_post s1); assumption.
-    + rewrite wp_bind, wp_parse_error, wp_ret. apply step_post_done. eapply TInv_core_eq; [apply core_eq_set_out | exact I1].
+    + rewrite wp_bind, wp_parse_error, wp_ret. apply step_post_done. eapply TInv_core_eq; [(apply core_eq_set_out; reflexivity) | exact I1].
   - (* 9 *) apply arm_unexpected; exact I1.
   - (* 10 *) apply (in_head_delegated s1 t _ I1 L1 NS1 Sc F10 N10 Hm).
   - (* 11 <input> *)
     destruct (head_safe _ _ F11 Hm) as (g & -> & N0 & N1 & N2). cbn [tk_tag].
     rewrite wp_bind, wp_parse_error. set (s2 := set_out _ s1).
-    assert (K2 : keeps s1 s2) by (apply keeps_set_out; exact K1).
+    assert (K2 : keeps s1 s2) by ((apply keeps_set_out; [|reflexivity]); exact K1).
     destruct (is_type_hidden g).
     + rewrite wp_bind. unfold insert_and_pop_element_for.
       eapply (wp_insert_element_std s1); [exact K2 | exact L1 | exact N1 | exact N2 |].
@@ -779,7 +781,7 @@ Proof.
   - (* 12 <form> *)
     destruct (head_named_prop _ _ _ F12 Hm) as (g & -> & Nf). apply is_n_eq in Nf. cbn [tk_tag].
     rewrite wp_bind, wp_parse_error, wp_bind, wp_get. set (s2 := set_out _ s1).
-    assert (K2 : keeps s1 s2) by (apply keeps_set_out; exact K1).
+    assert (K2 : keeps s1 s2) by ((apply keeps_set_out; [|reflexivity]); exact K1).
     rewrite wp_bind.
     match goal with |- wp (if ?b then _ else _) _ _ => destruct b end.
     + rewrite wp_bind. unfold insert_and_pop_element_for.
@@ -789,7 +791,7 @@ Proof.
     + rewrite wp_ret, wp_ret. apply step_post_done. exact (keeps_TInv _ _ K2).
   - (* 13 Eof *)
     eapply wp_mono; [apply step_in_body_ok; [exact I1 | exact L1 | left; exact NS1 | exact Sc]|]. intros r s' [P _]. exact P.
-  - (* 14 *) rewrite wp_bind, wp_parse_error. apply Foster. apply keeps_set_out. exact K1.
+  - (* 14 *) rewrite wp_bind, wp_parse_error. apply Foster. (apply keeps_set_out; [|reflexivity]). exact K1.
 Qed.
 
 (* ---------- InCaption ---------- *)
@@ -859,7 +861,7 @@ Proof.
     destruct (html_elem_named_b s1 h (nm "colgroup")) eqn:Nh.
     + rewrite wp_bind. apply (PopColgroup h _ V Nh). intros e s' K'.
       apply (set_mode_done_post s1); [exact K' | exact L1 | exact NS1 | reflexivity | reflexivity | intro X; discriminate X].
-    + rewrite wp_bind, wp_parse_error, wp_ret. apply step_post_done. eapply TInv_core_eq; [apply core_eq_set_out | exact I1].
+    + rewrite wp_bind, wp_parse_error, wp_ret. apply step_post_done. eapply TInv_core_eq; [(apply core_eq_set_out; reflexivity) | exact I1].
   - apply arm_unexpected; exact I1.
   - apply (in_head_delegated s1 t _ I1 L1 NS1 Sc F7 N7 Hm).
   - exact InBody.
@@ -929,7 +931,7 @@ Proof.
     apply (set_mode_done_post s1); [exact K4 | exact L1 | exact NS1 | reflexivity | reflexivity | intro X; discriminate X].
   - (* <th> <td> *)
     rewrite wp_bind, wp_parse_error, wp_bind.
-    eapply (wp_pop_until_current s1); [apply keeps_set_out; exact K1 | exact L1 | reflexivity |]. intros s2 K2 _ _.
+    eapply (wp_pop_until_current s1); [(apply keeps_set_out; [|reflexivity]); exact K1 | exact L1 | reflexivity |]. intros s2 K2 _ _.
     rewrite wp_bind. unfold insert_phantom.
     eapply (wp_insert_element_std s1); [exact K2 | eapply keeps_late; eassumption | discriminate | discriminate |].
     intros h s4 K4 _ _ _ _. rewrite wp_ret.
@@ -992,7 +994,7 @@ Proof.
     destruct (in_scope_named s1 table_scope (nm "tr")) eqn:Sc1.
     + rewrite wp_bind. apply wp_close_row; [exact I1 | exact L1 | exact Sc1 |]. intros s2 K2 _.
       apply (set_mode_done_post s1); [exact K2 | exact L1 | exact NS1 | reflexivity | reflexivity | intro X; discriminate X].
-    + rewrite wp_bind, wp_parse_error, wp_ret. apply step_post_done. eapply TInv_core_eq; [apply core_eq_set_out | exact I1].
+    + rewrite wp_bind, wp_parse_error, wp_ret. apply step_post_done. eapply TInv_core_eq; [(apply core_eq_set_out; reflexivity) | exact I1].
   - rewrite wp_bind, wp_get.
     destruct (in_scope_named s1 table_scope (nm "tr")) eqn:Sc1; [apply CloseRe; reflexivity | apply arm_unexpected; exact I1].
   - rewrite wp_bind, wp_get.
@@ -1051,7 +1053,7 @@ Lemma error_reprocess_in_body s t : TInv s -> late s -> saving_mode (mode s) = f
   wp (parse_error ;; ret (Reprocess InBody t)) (step_post t) s.
 Proof.
   intros I L NS. rewrite wp_bind, wp_parse_error, wp_ret.
-  apply (reprocess_post s); [apply keeps_set_out; apply keeps_refl; exact I | exact L | exact NS | reflexivity | reflexivity | intro X; discriminate X].
+  apply (reprocess_post s); [(apply keeps_set_out; [|reflexivity]); apply keeps_refl; exact I | exact L | exact NS | reflexivity | reflexivity | intro X; discriminate X].
 Qed.
 
 Lemma step_after_body_ok s t : TInv s -> mode s = AfterBody -> scalar_tok t -> wp (step_after_body t) (step_post t) s.
@@ -1068,7 +1070,7 @@ Proof.
   - apply arm_comment_to_html; assumption.
   - apply in_body_delegated; assumption.
   - rewrite wp_bind, wp_get, wp_bind. destruct (is_fragment s1).
-    + rewrite wp_parse_error, wp_ret. apply step_post_done. eapply TInv_core_eq; [apply core_eq_set_out | exact I1].
+    + rewrite wp_parse_error, wp_ret. apply step_post_done. eapply TInv_core_eq; [(apply core_eq_set_out; reflexivity) | exact I1].
     + unfold set_mode_m. rewrite wp_modify, wp_ret. apply step_post_done.
       apply (keeps_set_mode s1 s1 AfterAfterBody); [exact K1 | exact L1 | exact NS1 | reflexivity | reflexivity | intro X; discriminate X].
   - apply arm_done; exact I1.
@@ -1102,7 +1104,7 @@ Proof.
   - (* </frameset> *)
     rewrite wp_bind, wp_get, wp_bind.
     destruct (Nat.eqb (length (open_elems s1)) 1) eqn:E1.
-    + rewrite wp_parse_error, wp_ret. apply step_post_done. eapply TInv_core_eq; [apply core_eq_set_out | exact I1].
+    + rewrite wp_parse_error, wp_ret. apply step_post_done. eapply TInv_core_eq; [(apply core_eq_set_out; reflexivity) | exact I1].
     + apply Nat.eqb_neq in E1. rewrite wp_bind.
       eapply (wp_pop s1 s1); [exact K1 | exact L1 | |].
       { destruct (TInv_stack_nonempty _ I1 L1) as (r & rest & Er & _). rewrite Er in *. simpl in *. lia. }
@@ -1122,7 +1124,7 @@ Proof.
   - apply (in_head_delegated s1 t _ I1 L1 NS1 Sc F7 N7 Hm).
   - rewrite wp_bind, wp_get, wp_bind, wp_when.
     destruct (negb (Nat.eqb (length (open_elems s1)) 1)).
-    + rewrite wp_parse_error, wp_ret. apply step_post_done. eapply TInv_core_eq; [apply core_eq_set_out | exact I1].
+    + rewrite wp_parse_error, wp_ret. apply step_post_done. eapply TInv_core_eq; [(apply core_eq_set_out; reflexivity) | exact I1].
     + rewrite wp_ret. apply step_post_done. exact I1.
   - apply arm_unexpected; exact I1.
 Qed.
@@ -1208,7 +1210,7 @@ Proof.
       { apply In_singleton. apply (lands_sound heads_in_body [3] (nth 3 heads_in_head []) t0); [reflexivity | exact Hm0]. }
       unfold step_in_body, step_in_body_gen.
       eapply (wp_arm_dispatch_at _ _ _ _ 3); [exact E | reflexivity |].
-      eapply wp_mono; [apply ib_3_ok; [eapply TInv_core_eq; [apply core_eq_set_out | exact I0] | exact L0]|].
+      eapply wp_mono; [apply ib_3_ok; [eapply TInv_core_eq; [(apply core_eq_set_out; reflexivity) | exact I0] | exact L0]|].
       intros r s' [Is ->]. split; [apply step_post_done; exact Is | reflexivity].
     + unfold ih_pre. cbv zeta. split; [intros _; split; assumption | intros _ _; exact Hd].
   - intros r s' [P _]. exact P.
